@@ -7,7 +7,13 @@ Lemmas.TrigBound — real-analysis layer for C16 (sin / cos accuracy).
     them at a real; `pshift` is the Taylor shift; `absb` the trivial bound `Σ |q_j| h^j` of the shifted polynomial
     on `[m-h, m+h]`; `checkAll` runs the bounder on a uniform subdivision and is evaluated by the kernel.
  3. The coefficient tables of the crate's `restricted_sin` / `restricted_cos` as exact rationals, and the
-    approximation error of the two polynomials on `|r| ≤ 393/500 = 0.786 > π/4`.
+    approximation error of the two polynomials on `|r| ≤ 393/500 = 0.786 > π/4`:
+      `sin_poly_abs`     : `|sin r − r·(r²·P_s(r²) + 1)| ≤ 9·2^-72`   (< 2^-68.8; the true maximum is ≈ 2^-69.1)
+      `sin_poly_rel`     : `… ≤ |r|·11·2^-70`,   `sin_poly_rel_sin` : `… ≤ |sin r|·13·2^-70`  (< 2^-66.29)
+      `cos_poly_abs`     : `|cos r − (r²·(r²·P_c(r²) − 1/2) + 1)| ≤ 2^-74`   (true maximum ≈ 2^-74.4)
+    Method: Taylor polynomial of degree 21 / 22 with remainder, and the difference (Taylor − table), a polynomial in
+    `t = r²` with massive cancellation, bounded on 64 cells of `[0, 0.786²]` by Taylor shift to the cell centre.
+ 4. `sin (ρ + k·π/2)`, `cos (ρ + k·π/2)` by `k mod 4`.
 
 No dependency on the model: `Properties/C16t.lean` proves that the literal tables here are the model's tables.
 -/
